@@ -475,7 +475,12 @@ func extractPipe(w *strings.Builder) error {
 	mapValuesFacts := callFacts("internal/j5s/j5convert/summary.go", "mapValues", "strings.HasPrefix")
 	optionByNameFacts := callFacts("lib/j5schema/root_schema.go", "OptionByName", "strings.TrimPrefix")
 	buildEnumFacts := callFacts("lib/j5schema/schema_from_proto.go", "buildEnum", "strings.HasSuffix", "strings.TrimSuffix", "strings.TrimPrefix")
-	listEnumFacts := callFacts("internal/j5client/list.go", "buildListRequest", "enumSchema.OptionByName")
+	listEnumFacts := []string{}
+	for _, f := range callFacts("internal/j5client/list.go", "buildListRequest", "enumSchema.OptionByName") {
+		if strings.HasPrefix(f, "enumSchema.OptionByName") || f == "eq foundVal nil" || strings.HasPrefix(f, "<") {
+			listEnumFacts = append(listEnumFacts, f)
+		}
+	}
 
 	fmt.Fprintf(w, "namespace J5V.Generated.Pipe\n")
 	fmt.Fprintf(w, "def fieldOneofMembers : List String := %s\n", leanStrList(members))
